@@ -452,3 +452,14 @@ def r5b(ctx):
     for r in c12.r3(ctx):
         r.rule = "C01-R5b"
         yield r
+
+
+import c10  # noqa: E402
+import c11  # noqa: E402
+
+
+@M.rule("C01-R9", "the canonical components are faithful to the received bytes: query parsing and header-value normalisation shapes (shared with C10-R4, C11-R3/R5)")
+def r9(ctx):
+    for r in list(c10.r4(ctx)) + list(c11.r3(ctx)) + list(c11.r5(ctx)):
+        r.rule = "C01-R9"
+        yield r
